@@ -38,6 +38,14 @@ RC=$?
 grep -E '^(VIOLATION|KNOWN-FINDING|INCONCLUSIVE|SUMMARY|  )' "$LOG" | head -200
 if [ $RC = 0 ] || [ $RC = 1 ] || [ $RC = 2 ]; then
   if [ $RC = 1 ] && ! grep -q '^VIOLATION' "$LOG"; then echo "VIOLATION property=$ID replay=$LOG"; fi
+  # thorough tier of C02/C10/C12/C16: the same check once more under the race detector (C07 drives its own race child)
+  if [ $RC = 0 ] && [ $NEED_RACE = 1 ] && [ "$ID" != C07 ]; then
+    RR="$(mktemp -d "$VERIF_SCRATCH/verif-racepass-XXXXXX")"; cp "$ROOT/known_findings.json" "$RR/" 2>/dev/null
+    GORACE="halt_on_error=0 log_path=$RR/race" VERIF_ROOT="$RR" VERIF_RACE_PASS=1 timeout -s QUIT $WATCHDOG "$ROOT/bin/check-race" "$ID" "$TIER" >"$LOG.race" 2>&1
+    CRC=$?
+    python3 "$ROOT/tools/racepass.py" "$ID" "$TIER" "$RR" "$CRC" "$LOG.race"; RC=$?
+    rm -rf "$RR"
+  fi
   exit $RC
 fi
 # The check process itself died (in-process fixtures run server code inside the checker).
